@@ -292,6 +292,7 @@ class Case:
     family = "?"
     max_paths = 20000
     expect_sat: tuple = ()  # names of canary properties that must be refutable
+    must_differ: tuple = ()  # canaries whose refutability is itself part of the property ("... changes the result")
 
     def inputs(self, env):
         raise NotImplementedError
@@ -397,6 +398,7 @@ class CaseReport:
         self.outcomes = {}
         self.trivial = 0
         self.nondet_skipped = 0
+        self.refuted = set()
         self.functions = {}
 
 
@@ -463,7 +465,7 @@ def _run_case(case, rep, timeout_ms, cross, validate, deadline):
                     continue
                 rep.discharged += 1
                 continue
-            if canary and rep.canaries_ok:
+            if canary and name in rep.refuted:
                 continue  # one refutation per case is enough
             neg = zb(b_not(t))
             st.label = f"{case.id}/p{pi}/{name}"
@@ -473,6 +475,7 @@ def _run_case(case, rep, timeout_ms, cross, validate, deadline):
             if canary:
                 if res == "sat":
                     rep.canaries_ok += 1
+                    rep.refuted.add(name)
                 continue
             if res == "unsat":
                 rep.discharged += 1
@@ -495,8 +498,38 @@ def _run_case(case, rep, timeout_ms, cross, validate, deadline):
                 # the path took one of several admissible orders of equal values; NumPy took another
                 del rep.validation_mismatch[nm:]
                 rep.nondet_skipped += 1
+    # "X changes the result" clauses: the equality canary must be refutable, otherwise the clause is violated
+    for name in case.must_differ:
+        if name in rep.refuted:
+            continue
+        if rep.errors:
+            break
+        # confirm on the real code: two unrelated concrete input sets both make the equality hold
+        import random
+        rng = random.Random(12345)
+        confirmed = True
+        last_values = None
+        for _ in range(2):
+            values = {}
+            for nm, v in env.decl.items():
+                values[nm] = (rng.random() < 0.5) if z3.is_bool(v) else (rng.randint(0, 3) if z3.is_int(v) else Fraction(rng.randint(1, 999), 1000))
+            try:
+                _, _, coc, cprops = run_concrete(case, values)
+                d = dict(cprops)
+                confirmed &= name in d and _safe_bool(d[name])
+                last_values = values
+            except Exception:  # noqa: BLE001
+                confirmed = False
+        entry = {"case": case.id, "family": case.family, "prop": name.replace("canary:", "") + "::never_differs",
+                 "key": f"{case.family}:{name.replace('canary:', '')}::never_differs", "inputs": jsonable(last_values or {}),
+                 "outcome": "returned", "path": -1, "failed_concrete_props": []}
+        if confirmed:
+            rep.violations.append(entry)
+        else:
+            entry["why"] = "equality canary never refuted symbolically but differs concretely"
+            rep.nonrepro.append(entry)
     # canaries must have been refuted at least once per case
-    want = [n for n in case.expect_sat]
+    want = [n for n in case.expect_sat if n not in case.must_differ]
     if want and rep.canaries_ok == 0 and not rep.errors:
         rep.canaries_bad.append(f"canaries {want} were never refutable")
 
